@@ -1212,8 +1212,13 @@ func genSys(r *vfh.Rand, epoch time.Time) sysState {
 		}
 		s.routes = append(s.routes, netip.MustParsePrefix(p))
 	}
-	switch r.Intn(5) {
+	switch r.Intn(8) {
 	case 0:
+	case 1: // a hardware address that is not a 48-bit one: tunnels (4, 16), IEEE 1394 / 802.15.4 (8), IPoIB (20), empty
+		s.mac = make(net.HardwareAddr, vfh.Pick(r, []int{0, 4, 8, 16, 20}))
+		for j := range s.mac {
+			s.mac[j] = byte(r.Intn(256))
+		}
 	default:
 		s.mac = net.HardwareAddr{0x02, 0x11, byte(r.Intn(256)), byte(r.Intn(256)), byte(r.Intn(256)), byte(r.Intn(256))}
 	}
